@@ -247,6 +247,10 @@ class Skeleton:
                                                               "insert") and isinstance(fn.value, ast.Name) and c.args:
                 cont = fn.value.id
                 arg = c.args[-1] if fn.attr == "insert" else c.args[0]
+                if fn.attr == "append" and isinstance(arg, ast.Call) and self._var_from_call(arg) is not None:
+                    found = self._var_from_call(arg)
+                    self.vars.append(Var(cont, found[0], found[1], found[2], self._loops_of(stack), st, True))
+                    continue
                 if fn.attr in ("add_constraint",):
                     self._constraint(arg, "<problem:%s>" % cont, st, stack, conds)
                 elif fn.attr in ("extend", "add_list_of_constraints"):
